@@ -319,6 +319,8 @@ def lifecycle_case(binary, case):
                 # for the rest of the day - rotated and open segments side by side under one tags tree holder
                 time.sleep(6)
                 rotated_at = time.time()
+            elif op == "tagsflush":
+                dr.ok("mtagsflush")      # one iteration of the tags tree flush timer
             elif op == "restart":
                 dr.ok("mrotate")
                 dr.quit()
@@ -553,10 +555,16 @@ def run(chk):
     # answers required by the specification after each stretch
     rl = vlib.run_tlc("MC_MetricsLifecycle", "MC_MetricsLifecycle.cfg", timeout=900)
     vlib.tlc_must_hold(rl, "MetricsLifecycle exhaustive")
-    chk.add_tlc("MC_MetricsLifecycle", rl, "NothingMoves / AnswerIsStored; 3 series, times 1..3, 7 steps, 1 restart")
+    chk.add_tlc("MC_MetricsLifecycle", rl, "NothingMoves / AnswerIsStored / AnswerComplete (the engine's tags-search and name-regex rules return the required answer); 3 series, times 1..3, 7 steps, 1 restart")
     rl2 = vlib.run_tlc("MC_MetricsLifecycle", "MC_MetricsLifecycle_loseopen.cfg", timeout=600)
     if "NothingMoves" not in rl2.violated:
         raise vlib.Infra("model sensitivity lost: a restart that forgets the open block no longer violates NothingMoves")
+    for cfg, what in (("MC_MetricsLifecycle_tthfirst.cfg", "tags search decided by the first request of the holder (pinned rule, repaired by 5b5e30d)"),
+                      ("MC_MetricsLifecycle_namesfirst.cfg", "regex candidate names from the holder's oldest segment only (pinned rule, repaired by e7a279d)")):
+        rs_ = vlib.run_tlc("MC_MetricsLifecycle", cfg, timeout=600)
+        if "AnswerComplete" not in rs_.violated:
+            raise vlib.Infra("model sensitivity lost: %s no longer violates AnswerComplete" % cfg)
+        chk.cov.setdefault("model_sensitivity_lifecycle", []).append("%s: %s violates AnswerComplete (expected)" % (cfg, what))
     life, rg = vlib.tlc_generate("Gen_MetricsLifecycle", "Gen_MetricsLifecycle.cfg", simulate="num=%d" % (400 if quick else 3000), depth=17,
                                  seed=chk.seed, timeout=600)
     chk.add_tlc("Gen_MetricsLifecycle", rg, "random walks of 16 steps over 4 series (3 share a metric name), times 1..6, <=2 restarts, <=1 segment rotation")
